@@ -254,8 +254,11 @@ package common
 //@   requires locVar != nil
 //@ end
 
+// C07: a new binding starts unread and without any exemption from the unused-local report
 //@ func (*ScopeInfo).AddLocVar
 //@   sweep C01
+//@   props C07
+//@   ensures[C07,new-binding-starts-unread-and-not-exempt] result != nil && !result.IsClose && !result.IsUse && !result.IsParam && !result.IsForParam && result.ReferFunc == nil && result.Loc == loc
 //@ end
 
 // ---- C19: document-symbol outline of local declarations ----
@@ -402,4 +405,39 @@ package common
 
 //@ func (*GlobalConfig).IsGlobalIgnoreErrType
 //@   pure
+//@ end
+
+// ---- C20: canonical key of a table-constructor field (duplicate-key check, type 5) ----
+// integer keys are spelled "#int<decimal>", string keys verbatim, so [1] and ["1"] are different keys; a name key k is
+// spelled with a leading "!" (fmt.Sprintf: outside the model, not stated).  Not covered: a STRING key that itself
+// starts with "#int" or "!" can still collide with an integer / name key (DESIGN.md, holes).
+//@ func GetTableConstuctorKeyStr
+//@   props C20
+//@   ensures[integer-keys-have-their-own-spelling] typeis(node, "*ast.IntegerExp") ==> len(strKey) > 4 && strKey[0] == 35 && strKey[1] == 105 && strKey[2] == 110 && strKey[3] == 116
+//@   ensures[string-key-is-the-string-itself] typeis(node, "*ast.StringExp") ==> streq(strKey, as(node, "*ast.StringExp").Str) && loc == as(node, "*ast.StringExp").Loc
+//@   ensures[other-expressions-have-no-canonical-key] !typeis(node, "*ast.IntegerExp") && !typeis(node, "*ast.StringExp") && !typeis(node, "*ast.NameExp") ==> len(strKey) == 0
+//@ end
+
+// ---- C18: tie-break score of a fuzzy module match ----
+// the directories counted are those in front of the LAST occurrence of the module path in the candidate (the file name
+// sits at the end of the candidate; a directory of the same name further left must not be mistaken for it), the same
+// occurrence whether the module string was given with or without suffix; a candidate without occurrence ranks last
+//@ func calcMatchStrScore
+//@   props C18
+//@   at call strings.Split#0 before assert[directories-in-front-of-the-last-occurrence-are-counted] sametext(arg0, condidateStr) && off(arg0) == off(condidateStr)
+//@        && len(arg0) == strLastIndex(condidateStr, referFileName) && streq(arg1, "/")
+//@   ensures[candidate-without-occurrence-ranks-last] strLastIndex(condidateStr, referFileName) == -1 ==> score == -1000000
+//@   ensures[candidate-with-occurrence-ranks-above-those-without] strLastIndex(condidateStr, referFileName) != -1 ==> hits("strings.Split#0") == 1
+//@ end
+
+// ---- C15: the visited set of the walk over parent classes / alias targets ----
+// "already visited" means THIS definition (the same object) is in the list - not another definition that merely sits in
+// the same file or comment block: one comment block may declare several classes, and each of them must be walked
+//@ func (*CreateTypeList).IsRepeateTypeInfo
+//@   props C15
+//@   requires cl != nil
+//@   ensures[visited-only-if-this-very-definition-is-listed] result ==> exists(k, 0, len(cl.List), cl.List[k] == createTypeInfo)
+//@   ensures[a-listed-definition-is-visited] forall(k, 0, len(cl.List), cl.List[k] == createTypeInfo ==> result)
+//@   loop range:cl.List invariant forall(k, 0, rangeindex + 1, cl.List[k] != createTypeInfo)
+//@   assigns nothing
 //@ end
